@@ -704,7 +704,8 @@ func c02r7(r *R) {
 			k, isC := constInt(ia.Index)
 			ok = isC && k == 0
 			o2.AtI(i).Check(ok, "ALPN protocol index is %s, want the first protocol", c.Expr(ia.Index))
-			o2.Check(hasGuardContaining(c.guardStrs(i.Block()), "+", "(0 < builtin.len(assert[*tls.ALPNExtension]("), "AlpnProtocols[0] is read without checking the list is non-empty")
+			gsA := c.guardStrs(i.Block())
+			o2.Check(hasGuardContaining(gsA, "+", "(0 < builtin.len(assert[*tls.ALPNExtension](") || hasGuardContaining(gsA, "+", "(0 != builtin.len(assert[*tls.ALPNExtension]("), "AlpnProtocols[0] is read without checking the list is non-empty")
 		}
 	})
 	o2.Check(ok, "the first ALPN protocol is never read")
